@@ -107,6 +107,7 @@ func (ts *treeStorage) Remove(id TreeID) {
 		defer ts.wg.Done()
 
 		timer := time.NewTimer(ts.timeout)
+		verifAt("treestorage.timerArmed", ts, id)
 
 		select {
 		// other distant node instances of the protocol could ask for the tree even
